@@ -88,6 +88,27 @@ func VerifC14_Failures() {
 	vReach("ran")
 }
 
+// ErrorSkipParents (and, in the thorough tier, failures) at the two lowest tasks
+// of every graph of 4 tasks - diamonds, shared and separate dependents - under
+// every completion order: nothing above a skipping or failed task starts and
+// the report is complete.
+func VerifC14_SkipDiamonds() {
+	vNativeReset()
+	s := newScenario(scenarioOpts{n: 4, outcomes: oNil})
+	if vThorough() {
+		s.outcome[0][0] = vInt("out0", 0, 2)
+		s.outcome[1][0] = vInt("out1", 0, 2)
+	} else {
+		s.outcome[0][0] = vInt("skip0", 0, 1) * oSkip // nil or skip
+		s.outcome[1][0] = vInt("skip1", 0, 1) * oSkip
+	}
+	s.build()
+	err := s.run()
+	vObserve("failed", err != nil)
+	s.resultAsserts(err)
+	vReach("ran")
+}
+
 func VerifC14_FailuresWithRetries() {
 	vNativeReset()
 	s := newScenario(scenarioOpts{n: 2, maxRetries: 1, modes: true, outcomes: oSkip, buffer: true})
